@@ -50,7 +50,8 @@ def build(case):
     from bioscrape.lineage import LineageModel, LineageVolumeSplitter
     rx = [G.reaction_tuple(r) for r in case["reactions"]]
     M = LineageModel(species=list(case["species"]), reactions=rx, parameters=[(k, v) for k, v in case["parameters"].items()], initial_condition_dict=dict(case["x0"]))
-    vs = LineageVolumeSplitter(M)
+    so = case.get("splitter")
+    vs = LineageVolumeSplitter(M, options=dict(so["options"]), partition_noise=so["noise"]) if so else LineageVolumeSplitter(M)
     for kind, g in case["vrules"]:
         if kind == "ode": M.create_volume_rule("ode", {"equation": g})
         else: M.create_volume_rule(kind, {"growth_rate": g})
@@ -168,4 +169,121 @@ def oracle(case, r):
     if has_growth and all(kind in ("linear", "multiplicative") for kind, _ in case["vrules"]):
         for a, b in zip(vols, vols[1:]):
             if b < a * (1 - 1e-12): return "single cell: volume decreases under pure growth: %r" % vols
+    return None
+
+
+# ------------------------------------------------------------------ whole lineages: py_SimulateCellLineage replayed against Model/Worklist.v
+def gen_lineage(rng):
+    c = gen_single(rng)
+    while not (c["drules"] or c["devents"]): c = gen_single(rng)
+    c["family"] = "lineage_replay"; c["cell"] = {"V": 1.0, "t0": 0.0}      # py_SimulateCellLineage's default initial cell
+    c["splitter"] = {"options": {"A": rng.choice(["binomial", "perfect", "duplicate"]), "B": rng.choice(["binomial", "perfect", "duplicate"]),
+                                 "volume": rng.choice(["binomial", "binomial", "perfect", "duplicate"])}, "noise": rng.choice([0.0, 0.2, 0.5])}
+    dt = rng.choice([0.25, 0.5]); n = rng.randint(6, 16)
+    c["times"] = [i * dt for i in range(n)]
+    # keep populations small: division not faster than about once per 1.5 time units
+    c["parameters"]["thr_t"] = max(c["parameters"]["thr_t"], 2.0); c["parameters"]["kde"] = min(c["parameters"]["kde"], 0.3)
+    return c
+
+def impl_lineage(case):
+    import numpy as np, warnings
+    from bioscrape.lineage import py_SimulateCellLineage
+    from bioscrape.random import py_seed_random, py_rand_int
+    warnings.simplefilter("ignore")
+    M = build(case); s2i, p2i = M.get_species2index(), M.get_params2index()
+    T = np.array(case["times"], dtype=float)
+    x0 = np.zeros(len(s2i))
+    for s, v in case["x0"].items(): x0[s2i[s]] = v
+    sim_toks = G.sim_tokens(M, case["safe"], float(T[1] - T[0]), float(T[0]), x0)
+    vterms = []
+    for it in M.__getstate__():
+        if isinstance(it, list) and it and all(type(x).__name__.endswith("VolumeRule") for x in it):
+            for x in it:
+                st = G._state_of(x); vterms.append(G.term_tokens(st[1]) if type(x).__name__ in ("ODEVolumeRule", "AssignmentVolumeRule") else None)
+    py_seed_random(case["seed"]); raised = None
+    try:
+        lin = py_SimulateCellLineage(T, Model=M, safe=case["safe"])
+    except ValueError as e:
+        raised = str(e)[:160]
+    nxt = py_rand_int(); py_seed_random(case["seed"]); raws = []; pos = -1
+    for k in range(400000):
+        r = py_rand_int(); raws.append(str(r))
+        if r == nxt: pos = k; break
+    if raised is not None: return {"raised": raised, "sim": sim_toks, "p2i": p2i, "s2i": s2i, "vterms": vterms, "raws": raws, "pos": pos}
+    ids = {id(lin.py_get_schnitz(i)): i for i in range(lin.py_size())}
+    cells = []
+    for i in range(lin.py_size()):
+        z = lin.py_get_schnitz(i); p = z.py_get_parent(); d = z.py_get_daughters()
+        cells.append({"parent": -1 if p is None else ids.get(id(p), -2), "daughters": [-1 if x is None else ids.get(id(x), -2) for x in d],
+                      "times": [fhex(v) for v in np.asarray(z.py_get_time())], "rows": [[fhex(v) for v in row] for row in np.asarray(z.py_get_data())],
+                      "vols": [fhex(v) for v in np.asarray(z.py_get_volume())]})
+    return {"cells": cells, "pos": pos, "raws": raws, "sim": sim_toks, "p2i": p2i, "s2i": s2i, "vterms": vterms}
+
+def driver_line_lineage(case, r):
+    line = driver_line(dict(case, times=case["times"]), r)
+    if line is None: return None
+    toks = line.split()
+    # cut the single-cell tail (<times> <t_cur> <t_init> <V> <V_init> <stream>) and append the lineage tail
+    nt = len(case["times"]); nraw = len(r.get("raws") or ["0"])
+    head = toks[: len(toks) - (1 + nt) - 4 - (1 + nraw)]
+    head[0] = "lineage"
+    s2i = r["s2i"]; so = case["splitter"]; order = sorted(s2i, key=lambda s: s2i[s])
+    vm = {"binomial": "0", "duplicate": "1", "perfect": "2"}[so["options"].get("volume", "binomial")]
+    perfect = [str(s2i[s]) for s in order if so["options"].get(s, "binomial") == "perfect"]; binom = [str(s2i[s]) for s in order if so["options"].get(s, "binomial") == "binomial"]
+    one = [vm, str(len(perfect))] + perfect + [str(len(binom))] + binom + [fhex(so["noise"])]
+    nsp = len(case["drules"]) + len(case["devents"])
+    tail = [str(nsp)] + one * nsp + G.flist(case["times"]) + ["1", fhex(1.0), fhex(0.0)]
+    raws = r.get("raws") or ["0"]
+    return " ".join(head + tail + [str(len(raws))] + raws)
+
+def compare_lineage(case, r, out):
+    if not r or "sim" not in r: return "implementation failed: %s" % json.dumps(r)[:300]
+    toks = out.split()
+    if "raised" in r:
+        return None if toks and toks[0] in ("FAULT4", "FAULT7") else "lineage: implementation raised %r, model: %s" % (r["raised"], out[:120])
+    if toks and toks[0].startswith(("FAULT", "OUTOFFUEL")): return "lineage: model %s, implementation returned %d cells" % (toks[0], len(r["cells"]))
+    cells = []; i = 0
+    while i < len(toks) and toks[i] == "S":
+        par, d1, d2 = int(toks[i + 1]), int(toks[i + 2]), int(toks[i + 3]); i += 4
+        assert toks[i] == "T"; nt = int(toks[i + 1]); times = toks[i + 2:i + 2 + nt]; i += 2 + nt
+        assert toks[i] == "N"; nr = int(toks[i + 1]); i += 2; rows = []
+        for _ in range(nr):
+            assert toks[i] == "R"; j = i + 1; row = []
+            while toks[j] not in ("R", "V"): row.append(toks[j]); j += 1
+            rows.append(row); i = j
+        assert toks[i] == "V"; vols = toks[i + 1:i + 1 + nr]; i += 1 + nr
+        cells.append((par, d1, d2, times, rows, vols))
+    pos = int(toks[i + 1])
+    if len(cells) != len(r["cells"]): return "lineage: model has %d cells, implementation %d" % (len(cells), len(r["cells"]))
+    H = lambda xs: [float.fromhex(x) for x in xs]
+    for k, (m, c) in enumerate(zip(cells, r["cells"])):
+        if m[0] != c["parent"] or [m[1], m[2]] != c["daughters"]: return "lineage links: cell %d: model parent %d daughters %r, implementation parent %d daughters %r" % (k, m[0], [m[1], m[2]], c["parent"], c["daughters"])
+        if H(m[3]) != H(c["times"]): return "lineage: cell %d: model times %r implementation %r" % (k, H(m[3]), H(c["times"]))
+        if [H(x) for x in m[4]] != [H(x) for x in c["rows"]]: return "lineage: cell %d: rows differ: model %r implementation %r" % (k, [H(x) for x in m[4]][-2:], [H(x) for x in c["rows"]][-2:])
+        for a, b in zip(H(m[5]), H(c["vols"])):
+            if not (a == b or abs(a - b) <= 1e-12 * abs(b)): return "lineage: cell %d: volumes differ: model %r implementation %r" % (k, H(m[5]), H(c["vols"]))
+    if pos != r["pos"]: return "lineage: model consumed %d uniforms, implementation %d" % (pos, r["pos"])
+    return None
+
+def oracle_lineage(case, r):
+    """structure of the recorded lineage: mutual links, daughters start at the mother's last time from a partition of her last state"""
+    if not r or "sim" not in r: return "lineage failed: %s" % json.dumps(r)[:300]
+    if "raised" in r: return None if ("nonpositive volume" in r["raised"] or "dividing too" in r["raised"]) else "lineage: raised %r" % r["raised"]
+    cells = r["cells"]; H = lambda xs: [float.fromhex(x) for x in xs]
+    s2i = r["s2i"]; opts = case["splitter"]["options"]
+    for k, c in enumerate(cells):
+        if any(not (v > 0) for v in H(c["vols"])): return "positive volume: cell %d volume trace %r" % (k, H(c["vols"]))
+        if len(c["rows"]) != len(c["times"]) or len(c["vols"]) != len(c["times"]) or not c["rows"]: return "lineage: cell %d: %d rows, %d times, %d volumes" % (k, len(c["rows"]), len(c["times"]), len(c["vols"]))
+        d = c["daughters"]
+        if (d[0] < 0) != (d[1] < 0): return "links: cell %d has one daughter" % k
+        if d[0] >= 0:
+            for j in d:
+                if not (0 <= j < len(cells)) or cells[j]["parent"] != k: return "links: cell %d lists daughter %d whose parent is %r" % (k, j, cells[j]["parent"] if 0 <= j < len(cells) else None)
+            m = H(c["rows"][-1]); a = H(cells[d[0]]["rows"][0]); b = H(cells[d[1]]["rows"][0])
+            # daughters start at the mother's last time ... (their first reported time is the first grid time not before it)
+            tm = H(c["times"])[-1]
+            for j in d:
+                if H(cells[j]["times"])[0] < tm: return "partition of the last state: daughter %d of cell %d starts at %r before the mother's last time %r" % (j, k, H(cells[j]["times"])[0], tm)
+        if c["parent"] >= 0 and k not in cells[c["parent"]]["daughters"]: return "links: cell %d names parent %d which does not list it" % (k, c["parent"])
+    if sum(1 for c in cells if c["parent"] < 0) != 1: return "links: %d roots for one initial cell" % sum(1 for c in cells if c["parent"] < 0)
     return None
